@@ -110,9 +110,13 @@ CLAIMS = {
         "selection) equals n! a_n = f^(n)(x), hence so does the returned value; zero_order_is_f for n = 0. Built from the Taylor "
         "expansions of the four real-step quotients, fdRow_apply_k, C06, C07, C08, C13. Tie: translator (LogRule), exact "
         "correspondence of difference-function names and quotients, the linear segment of the real Derivative against the exact "
-        "model on dyadic polynomials (rounding bound), the non-linear tail bit for bit (C08). Partial: rounding, truncation error of "
-        "non-polynomial f, the sqrt(i) complex-step quotients and multicomplex are explored by the search (random expression programs "
-        "vs a Taylor-series oracle, per-(method,n) envelope), not proved.",
+        "model on dyadic polynomials (rounding bound), the non-linear tail bit for bit (C08). "
+        "derivative_exact_on_polynomials_complex proves the same for method='complex' over the reals: the five complex-step quotients "
+        "(model generic in the complex carrier: C with _SQRT_J any square root of I in the theorem, Q(zeta_8) in the exact correspondence) "
+        "are expanded on real polynomials, and the generated name logic, parity rows 1/3/4/5/6, constants c_0 and the sign flip "
+        "n%8 in {3,4,5,6} are shown to fit them for every n and order. Partial: rounding, truncation error of non-polynomial f and the "
+        "multicomplex pipeline are explored by the search (random expression programs vs a Taylor-series oracle, per-(method,n) "
+        "envelope), not proved.",
    technique="Lean 4 proof of polynomial exactness of the whole pipeline + exact/bit-exact correspondence + oracle search"),
  'C02': dict(
    text="Lean 4 theorems: every reported error estimate is >= 0 on both paths of _extrapolate (tailStage_err_nonneg, from C07/C13 and the "
